@@ -208,10 +208,45 @@ def _shift_promoted(rv, off):
         _shift_promoted_op(o, off)
 
 
+def _callee_names(b):
+    out = set()
+    for blk in b['blocks']:
+        t = blk['term']
+        if t['k'] == 'call' and 'indirect' not in t['func']:
+            f = t['func']
+            n = f.get('name')
+            if n in ('clone', 'unwrap', 'expect', 'into', 'from', 'deref', 'deref_mut', 'into_iter', 'iter', 'next', 'branch', 'from_residual', 'fmt', 'new_display',
+                     'new_debug', 'new', 'enabled', 'log', 'must_use', 'format', 'panic_fmt', 'drop'):
+                continue
+            owner = f.get('impl_self') or f.get('self_ty') or f.get('trait') or ''
+            out.add('%s::%s' % (base_type(owner) if owner else '', n))
+    return out
+
+
+def fingerprints(doc):
+    """{qname: sorted callee names} for the non-closure bodies of the crate (what `affcheck inventory` stores next to the inventory)."""
+    out = {}
+    for b in doc['bodies']:
+        if b['kind'] != 'Closure':
+            out[_qname_of_dict(b)] = sorted(_callee_names(b))
+    return out
+
+
+def _load_fingerprints():
+    import json
+    import os
+    p = os.path.join(os.path.dirname(os.path.abspath(__file__)), 'fingerprints.json')
+    if not os.path.exists(p):
+        return {}
+    return json.load(open(p))
+
+
 def apply_renames(doc, inventory):
-    """A private function of the inventory that is gone, and a new private function with the same receiver type and the same signature: a rename.
-    The new function takes the old name (in its body record and at every call site), so that rules keep finding their anchor.  Only unambiguous
-    one-to-one matches are taken; anything else is left to the fail-closed anchor check.  -> [(old qname, new qname)]"""
+    """A private function of the inventory that is gone, and a new private function of the same receiver type that does the same calls: a rename
+    (possibly with a changed parameter list, possibly with parts of it moved into further new helpers).  The new function takes the old name
+    (in its body record and at every call site), so that rules keep finding their anchor.  Candidates are compared by the set of functions
+    they call (new helpers they call are expanded); only a clear best match is taken, anything else is left to the fail-closed anchor check.
+    -> [(old qname, new qname)]"""
     if inventory is None:
         return []
     present = {}
@@ -222,27 +257,62 @@ def apply_renames(doc, inventory):
     new = [b for b in doc['bodies'] if b['kind'] != 'Closure' and not b.get('is_pub') and _qname_of_dict(b) not in inventory]
     if not missing or not new:
         return []
+    fps = _load_fingerprints()
+    by_path = {b['path']: b for b in new}
+    closures_of = {}
+    for b in doc['bodies']:
+        if b['kind'] == 'Closure':
+            closures_of.setdefault(b.get('root'), []).append(b)
 
-    def sig(b):
-        return (b.get('impl_self') and base_type(b['impl_self']), b['arg_count'], tuple(l['ty'] for l in b['locals'][:b['arg_count'] + 1]))
-    out = []
+    def expanded(b, seen=()):
+        """callee names of b, with calls to other new private functions replaced by what those call"""
+        out = set()
+        bodies = [b] + closures_of.get(b['path'], [])
+        for bb in bodies:
+            for blk in bb['blocks']:
+                t = blk['term']
+                if t['k'] == 'call' and 'indirect' not in t['func']:
+                    tgt = t['func'].get('resolved') or t['func'].get('def')
+                    if tgt in by_path and tgt not in seen and tgt != b['path']:
+                        out |= expanded(by_path[tgt], seen + (b['path'],))
+        out |= set().union(*[_callee_names(x) for x in bodies])
+        return {x for x in out if x.split('::')[-1] not in {_qname_of_dict(n)['name'] if False else n['name'] for n in new}}
+
+    def owner_of(q):
+        return q.rsplit('::', 1)[0] if '::' in q else None
+
+    def sim(a, b_):
+        return len(a & b_) / float(len(a | b_)) if (a or b_) else 0.0
+    pairs = []
     for q in missing:
-        owner = q.rsplit('::', 1)[0] if '::' in q else None
-        cands = [b for b in new if (base_type(b['impl_self']) if b.get('impl_self') else None) == owner]
-        # the old signature is unknown (the function is gone): accept only if the owner lost exactly one function and gained exactly one
-        lost_same_owner = [m for m in missing if (m.rsplit('::', 1)[0] if '::' in m else None) == owner]
-        if len(cands) == 1 and len(lost_same_owner) == 1:
-            b = cands[0]
-            old_name = q.rsplit('::', 1)[-1]
-            new_q = _qname_of_dict(b)
-            path = b['path']
-            for bb in doc['bodies']:
-                for blk in bb['blocks']:
-                    t = blk['term']
-                    if t['k'] == 'call' and (t['func'].get('def') == path or t['func'].get('resolved') == path):
-                        t['func'] = dict(t['func'], name=old_name)
-            b['name'] = old_name
-            out.append((q, new_q))
+        want = set(fps.get(q, []))
+        cands = [b for b in new if (base_type(b['impl_self']) if b.get('impl_self') else None) == owner_of(q)]
+        lost_same_owner = [m for m in missing if owner_of(m) == owner_of(q)]
+        if len(cands) == 1 and len(lost_same_owner) == 1 and not want:
+            pairs.append((1.0, q, cands[0]))
+            continue
+        # callee names of the old body may mention other functions that were renamed too: compare on names that still exist or are std
+        newnames = {n['name'] for n in new}
+        want_c = {x for x in want if x.split('::')[-1] not in {m.rsplit('::', 1)[-1] for m in missing}}
+        scored = sorted(((sim(want_c, expanded(c)), c['path'], c) for c in cands), key=lambda x: (-x[0], x[1]))
+        if scored and scored[0][0] >= 0.5 and (len(scored) == 1 or scored[0][0] - scored[1][0] >= 0.15):
+            pairs.append((scored[0][0], q, scored[0][2]))
+    out = []
+    used = set()
+    for score, q, b in sorted(pairs, key=lambda x: -x[0]):
+        if b['path'] in used:
+            continue
+        used.add(b['path'])
+        old_name = q.rsplit('::', 1)[-1]
+        new_q = _qname_of_dict(b)
+        path = b['path']
+        for bb in doc['bodies']:
+            for blk in bb['blocks']:
+                t = blk['term']
+                if t['k'] == 'call' and (t['func'].get('def') == path or t['func'].get('resolved') == path):
+                    t['func'] = dict(t['func'], name=old_name)
+        b['name'] = old_name
+        out.append((q, new_q))
     return out
 
 
